@@ -232,6 +232,13 @@ def chk_ber_read(T, v, M):
         if got != want or rest:
             out.append(fail('ber-read', T, v, 'reference reader sees another value/remainder', mode=mode, enc=e,
                             got=repr(got), rest=rest))
+        elif T['k'] == 'REAL' and isinstance(v, tuple) and v[1] == 10 and v[0] and not T.get('tags') and mode == MODES[0]:
+            # X.690 8.5.8: a decimal REAL is one of the ISO 6093 forms; NR3 ("E" form) has a decimal mark in its mantissa.
+            # The reference reader above is lenient about it, a strict one is not.
+            body = e[3:] if len(e) > 2 and e[1] < 128 else b''
+            if e[:1] == b'\x09' and e[2:3] == b'\x03' and b'E' in body and b'.' not in body.split(b'E')[0]:
+                out.append(fail('ber-read', T, v, 'decimal REAL in NR3 form without a decimal mark in the mantissa: %r' % bytes(body),
+                                mode=mode, enc=e, nr3_no_mark=True))
     if 'REAL' in repr(T):
         # X.690 8.5.7.2: the binary encoding may use base 8 or 16 (selected per value, per encoder, or automatically)
         from pyasn1.type import univ as _univ
